@@ -831,7 +831,14 @@ func (s *TxStore) Rollback(tx mwdb.DBTransaction, height uint64) error {
 				continue
 			}
 
-			err = putRawUnmined(nsUnmined, txHash[:], recVal)
+			// the unmined bucket holds serialized transactions (see valueUnmined),
+			// not the block location stored in the tx record
+			rec.Received = rbBlock.Timestamp
+			unminedVal, err := valueUnmined(&rec)
+			if err != nil {
+				return err
+			}
+			err = putRawUnmined(nsUnmined, txHash[:], unminedVal)
 			if err != nil {
 				return err
 			}
